@@ -1410,7 +1410,9 @@ class SyncedStackedTransforms(StackedTransforms):
 
         # The new code refers to the function through this global: set it
         # first, another thread may call fn as soon as the code is swapped
-        fn.__globals__[token] = fn
+        if token is not None:
+            # (the untooled base code has no token: nothing to park)
+            fn.__globals__[token] = fn
         fn.__ptera_info__ = info
         fn.__ptera_token__ = token
         fn.__ptera_discard__ = False
